@@ -95,6 +95,32 @@ pub fn run(ctx: &mut Ctx, _replay: Option<&[String]>) {
             }
         }
     }
+    // (i-d) several Eb/N0 points in one run: the LAST frame handed to a decoder belongs to the last point and must have that point's LLR scale
+    {
+        let h = &hs[0];
+        for modulation in [Modulation::Bpsk, Modulation::Psk8] {
+            for pat in [None, Some(vec![true, true, true, false])] {
+                let bps = if modulation == Modulation::Psk8 { 3 } else { 1 };
+                let fac = Scripted {
+                    counter: Arc::new(AtomicU64::new(0)), log: Arc::new(Mutex::new(Vec::new())), log_limit: 2000,
+                    panic_every: 0, built: Arc::new(AtomicU64::new(0)), seed: ctx.seed, seq: false,
+                };
+                let log = fac.log.clone();
+                let t = BerTestBuilder {
+                    h: h.clone(), decoder_implementation: fac, modulation, puncturing_pattern: pat.as_deref(),
+                    interleaving_columns: None, max_frame_errors: 6, max_iterations: 5,
+                    ebn0s_db: &[52.0, 57.0, 60.0], reporter: None, bch_max_errors: 0,
+                }.build().unwrap();
+                let _ = t.run();
+                if let Some(v) = log.lock().unwrap().last() {
+                    let fl: Vec<String> = v.iter().map(|&x| hx(x)).collect();
+                    ctx.emit(&format!("c12 scale {} {} {} 0 {}", sm(h), if bps == 3 { "P" } else { "B" },
+                        pat.as_ref().map(|p| bools(p.iter().copied())).unwrap_or("-".into()), hx(60.0)),
+                        &fl.join(","), true, &["llr-scale-last-of-three-ebn0-points"]);
+                }
+            }
+        }
+    }
     // (i-b) bookkeeping of BerTest::new on a sweep of (n_cw, pattern): every pattern length <= 12 dividing n_cw, any number of kept blocks
     // (quotients n_cw / (len/trues) that land just below an integer in floating point are the interesting ones)
     for ncw in (4..=72usize).step_by(1) {
